@@ -1,5 +1,6 @@
 import OH.Proofs.HintDatedWindow
 import OH.Proofs.EvalSpecDatedWide
+import OH.Proofs.DatedFar
 /-
 Layer B — dated ranges with FIXED yearless bounds, day offsets within ±92 000 000 days: soundness of the hint,
 on top of the refinement of OH/Proofs/EvalSpecDatedWide.lean (same argument as OH/Proofs/HintDatedWindow.lean:
@@ -268,5 +269,35 @@ theorem dated_single_hintOKW (m dd : Nat) (so eo : DateOffset)
       refine HintOK.of_some hhint (by omega) ?_
       intro d' a b c'
       rw [hF d' (by omega) c', hF d hd1 hd2, hno d' a b c', hno d (by omega) (by omega) hd2]
+
+/-! ### a yearless start moved by 99 500 000 days or more: nothing ever starts (OH/Proofs/DatedFar.lean) -/
+
+/-- the filter is false on the whole window and the hint points after the day -/
+theorem date_hintOK_farStart (s : DateSpec) (so : DateOffset) (e : DateSpec) (eo : DateOffset)
+    (hw : (MonthdayRange.date s so e eo).wf = true) (hsy : dateYear s = none) (hfar : 99500000 ≤ so.days)
+    (d : Int) (hd2 : d < dateEnd) :
+    HintOK (MonthdayRange.date s so e eo).filter (MonthdayRange.date s so e eo).hint d := by
+  have hw' := hw
+  simp only [MonthdayRange.wf, Bool.and_eq_true] at hw'
+  obtain ⟨⟨⟨ws, wso⟩, _⟩, _⟩ := hw'
+  apply MonthdayRange.date_hintOK_of_V s so e eo hw d
+  · unfold datedHintV
+    cases hsd : singleDayOf s e with
+    | some md =>
+      obtain ⟨fy, m, dd⟩ := md
+      simp only []
+      cases hr : singleDayV m dd so eo d (sdYears fy (yearBeforeOffset d eo) 10) with
+      | none => exact hd2
+      | some r =>
+        obtain ⟨f, fr, rfl, hge⟩ := singleDayV_fst m dd so eo d _ r hr
+        have := shiftC_far so hfar f fr.1
+        simp only [sdNext]
+        rw [if_neg (by omega)]; omega
+    | none =>
+      have hsi : singleIntervalV s so e eo = none := by simp [singleIntervalV, hsy]
+      simp only [hsi]
+      exact nextChange_gt _ d hd2
+  · intro d' a _ c
+    rw [datedFilterV_far s so e eo ws hsy hfar d' c, datedFilterV_far s so e eo ws hsy hfar d hd2]
 
 end OH.Proofs.EvalSpec
